@@ -50,6 +50,8 @@ def funcs_in(prog, m):
 
 
 def render_value(kind, value):
+    if kind == "pdict":
+        return "{" + ", ".join(f"{k!r}: {v!r}" for k, v in value) + "}"
     if kind == "odict":
         return "OrderedDict(" + repr(list(value)) + ")"
     if kind == "path":
@@ -108,6 +110,8 @@ def render_func(prog, fname):
         params.append(n if d == NODEFAULT else f"{n}={lit(d)}")
     lines.append(f"def {fname}({', '.join(params)}):")
     lines.append(f"    rec({fname!r})")
+    if f.get("ctext") is not None:
+        lines.append(f"    # note {'x' * int(f['ctext'])}")      # a comment whose text (not its position) varies
     for _ in range(f.get("comment", 0)):
         lines.append("    # edited comment line")
     rs = []
@@ -129,7 +133,8 @@ def render_func(prog, fname):
         rs.append(r)
         if t == "var":
             v = prog["vars"][it["name"]]
-            lines.append(f"    {r} = {_ref_name(prog, cur, v['mod'], it['name'], it.get('form', 'direct'))}")
+            nm_ = _ref_name(prog, cur, v['mod'], it['name'], it.get('form', 'direct'))
+            lines.append(f"    {r} = list({nm_})" if it.get("keys") else f"    {r} = {nm_}")
         elif t == "call":
             g = prog["funcs"][it["f"]]
             nm = _ref_name(prog, cur, g["mod"], it["f"], it.get("form", "direct"))
@@ -182,6 +187,9 @@ def render_func(prog, fname):
                 lines.append("    )")
             else:
                 stmt = f"{r} = dds.keep({', '.join([pexpr, nm] + args)})"
+                if it.get("thread"):
+                    # the keep is made by a thread started by the evaluated code (and joined before going on)
+                    stmt = f"{r} = in_thread(lambda: dds.keep({', '.join([pexpr, nm] + args)}))"
                 if joined:
                     lines[-1] = lines[-1] + "; " + stmt
                 else:
@@ -192,6 +200,9 @@ def render_func(prog, fname):
                 lines.append(f"    {r} = in_thread(lambda: dds.load({spell_path(it['path'], it.get('pspell'))!r}))")
             else:
                 lines.append(f"    {r} = dds.load({spell_path(it['path'], it.get('pspell'))!r})")
+        elif t == "comp":
+            # a comprehension whose loop variable has the name of a module variable (it hides it inside the comprehension)
+            lines.append(f"    {r} = [{it['name']} * 0 for {it['name']} in range(2)]")
         elif t == "lazy":
             # a function-local (lazy) import of an accepted library package that nothing else imports
             lines.append("    import lzlib.core")
